@@ -66,7 +66,7 @@ const HOSTNAMES: [&str; 8] = [
 const ENTITIES: [&str; 3] = ["example.*", "sub.example.*", "b.example.*"];
 
 /// Location lists with two items (each chosen for one interaction of positive / negated / entity).
-const PAIRS: [&str; 10] = [
+const PAIRS: [&str; 14] = [
     "example.com,example.org",          // two unrelated positives
     "example.com,~sub.example.com",     // host minus one subdomain
     "sub.example.com,~example.com",     // positive below a negated parent: applies nowhere
@@ -77,6 +77,10 @@ const PAIRS: [&str; 10] = [
     "example.*,~sub.example.*",         // entity minus entity
     "a.b.example.com,b.example.*",      // hostname and entity, both positive
     "bücher.de,example.com",            // IDN next to ASCII
+    "example.org,example.*",            // hostname and entity, both positive; most pages covered by the entity only
+    "localhost,sub.example.*",          // the same with a sub-domain entity
+    "example.*,~sub.example.com,~x.example.*", // entity minus a hostname and minus an entity
+    "example.com,example.co.uk,~sub.example.com,~x.example.*", // two of each polarity, hostname and entity negations
 ];
 
 /// Public suffixes used as hostname locations (the property's "or public suffix").
